@@ -1,31 +1,25 @@
 /-
 C13 — cookie values round-trip and cannot inject attributes.
 Property theorems only (helper lemmas live in Lemmas/Cookie.lean).
+
+Model: `Model/Cookie.lean` (`dumpValue`, `dumpCookie`, `parseCookie`); tables `Gen/Cookie.lean`
+are regenerated from the live `_cookie_no_quote_re`, `_cookie_slash_re`, `_cookie_slash_map`,
+`_cookie_unslash_re` on every run.
 -/
-import WzVerif.Model.Cookie
+import WzVerif.Lemmas.Cookie
 namespace Wz.Props.C13
 open Wz Wz.Cookie
 
-/-- RFC 6265 cookie-octet: %x21 / %x23-2B / %x2D-3A / %x3C-5B / %x5D-7E -/
-def cookieOctet (n : Nat) : Bool :=
-  n == 0x21 || (0x23 ≤ n && n ≤ 0x2B) || (0x2D ≤ n && n ≤ 0x3A) || (0x3C ≤ n && n ≤ 0x5B) ||
-  (0x5D ≤ n && n ≤ 0x7E)
-
-def octDigit (n : Nat) : UInt8 := UInt8.ofNat (48 + n)
-
-/-- the escape werkzeug documents for byte `n`: `\"`, `\\`, or backslash + three octal digits -/
-def expectedEscape (n : Nat) : Bytes :=
-  if n == 0x22 then [0x5C, 0x22] else if n == 0x5C then [0x5C, 0x5C]
-  else [0x5C, octDigit (n / 64), octDigit (n / 8 % 8), octDigit (n % 8)]
+/-! ## the escape tables (complete 256-row tables, `decide +kernel`) -/
 
 /-- Every byte outside cookie-octet ∪ {SP} is matched by the live `_cookie_slash_re` and mapped by
-the live `_cookie_slash_map` to its documented escape; every other byte is left alone.
-(`decide` over the complete regenerated 256-row tables.) -/
+the live `_cookie_slash_map` to its documented escape (`\"`, `\\`, or `\ooo`); every other byte is
+left alone. -/
 theorem escape_table_safe :
     ∀ n, n < 256 →
       (if cookieOctet n || n == 0x20 then inSlashSet (UInt8.ofNat n) = false
-       else inSlashSet (UInt8.ofNat n) = true ∧ slashEntry (UInt8.ofNat n) = some (expectedEscape n)) := by
-  decide +kernel
+       else inSlashSet (UInt8.ofNat n) = true ∧ slashEntry (UInt8.ofNat n) = some (expectedEscape n)) :=
+  table_escape
 
 /-- The property text asks for *every* non-cookie-octet to be escaped. That full-strength form is
 false for exactly SP (0x20), which `dump_cookie` emits raw inside the quotes (known finding F13b,
@@ -41,11 +35,146 @@ theorem escape_table_only_sp :
   decide +kernel
 
 /-- The characters that may stay unquoted are cookie-octets (so an unquoted value cannot contain
-`;`, `,`, `"`, `\`, whitespace, controls or non-ASCII), and nothing above U+00FF is exempt. -/
+`;`, `,`, `"`, `\`, white space, controls or non-ASCII), and nothing above U+00FF is exempt. -/
 theorem no_quote_table_safe :
     Gen.Cookie.noQuoteHigh = false ∧
     ∀ n, n < 256 → tbl Gen.Cookie.noQuote n = true → cookieOctet n = true := by
   refine ⟨by decide, ?_⟩
+  decide +kernel
+
+/-! ## every value -/
+
+/-- one token of a quoted cookie value: a raw cookie-octet or SP, or one of the three escapes -/
+def safeToken (t : List Char) : Bool :=
+  match t with
+  | [c] => plainByte c.toNat
+  | ['\\', '"'] => true
+  | ['\\', '\\'] => true
+  | ['\\', a, b, c] => ('0' ≤ a && a ≤ '3') && ('0' ≤ b && b ≤ '7') && ('0' ≤ c && c ≤ '7')
+  | _ => false
+
+/-- the text between the quotes is a sequence of safe tokens: no raw `"`, `;`, `,`, `\`, control
+or non-ASCII character can occur outside an escape -/
+def SafeBody (body : List Char) : Prop :=
+  ∃ toks : List (List Char), body = toks.flatten ∧ ∀ t ∈ toks, safeToken t = true
+
+theorem token_table : ∀ n, n < 256 → safeToken (escChars n) = true := by decide +kernel
+
+/-- `dump_cookie` never fails on the value, for any Unicode text: the escape map has an entry for
+every byte the regex selects and the escaped text is ASCII. -/
+theorem dump_value_total (v : List Char) : ∃ out, dumpValue v = .ok out := by
+  by_cases h : v.all noQuoteChar = true
+  · exact ⟨v, by simp [dumpValue, h]⟩
+  · exact ⟨_, dumpValue_quoted v (by simpa using h)⟩
+
+/-- For every Unicode value the emitted cookie value is either the value itself, consisting of
+cookie-octets only, or a quoted string whose inside is a sequence of safe tokens — so it can
+never end the cookie pair or start an attribute. -/
+theorem dump_value_safe (v out : List Char) (h : dumpValue v = .ok out) :
+    (out = v ∧ ∀ c ∈ v, cookieOctet c.toNat = true) ∨
+    (∃ body, out = '"' :: body ++ ['"'] ∧ SafeBody body) := by
+  by_cases hq : v.all noQuoteChar = true
+  · left
+    have : dumpValue v = .ok v := by simp [dumpValue, hq]
+    rw [this] at h
+    refine ⟨(Except.ok.inj h).symm, fun c hc => ?_⟩
+    exact (noQuoteChar_facts c (List.all_eq_true.mp hq c hc)).1
+  · right
+    rw [dumpValue_quoted v (by simpa using hq)] at h
+    refine ⟨_, (Except.ok.inj h).symm, ((utf8Enc v).map UInt8.toNat).map escChars, ?_, ?_⟩
+    · simp [List.flatMap, List.flatten]
+    · intro t ht
+      simp only [List.mem_map] at ht
+      obtain ⟨n, ⟨b, _, rfl⟩, rfl⟩ := ht
+      exact token_table _ b.toNat_lt
+
+example : (match dumpValue "a;b\"c é".toList with
+    | .ok r => r == "\"a\\073b\\\"c \\303\\251\"".toList | .error _ => false) = true := by decide +kernel
+
+/-- Names for which the round trip is claimed: non-empty, without `=`, `;` or white space
+(a superset of RFC 6265 tokens). -/
+def ValidKey (k : List Char) : Prop := k ≠ [] ∧ k.all keyChar = true
+
+/-- **Round trip.** For every valid name and every Unicode value, parsing the emitted pair as a
+request `Cookie` header (sans-io parser) returns exactly that name and value. -/
+theorem cookie_roundtrip (k v hv : List Char) (hk : ValidKey k) (h : dumpValue v = .ok hv) :
+    parseCookie (k ++ '=' :: hv) = [(k, v)] := by
+  obtain ⟨hne, hkc⟩ := hk
+  have hcookie : (k ++ '=' :: hv).isEmpty = false := by cases k <;> simp
+  have hkstrip : Py.strip k = k := by
+    apply strip_id
+    · intro c hc
+      have : c ∈ k := List.mem_of_mem_head? hc
+      have := List.all_eq_true.mp hkc c this
+      simp only [keyChar, Bool.and_eq_true, Bool.not_eq_true'] at this
+      exact this.2
+    · intro c hc
+      have : c ∈ k := List.mem_of_getLast? hc
+      have := List.all_eq_true.mp hkc c this
+      simp only [keyChar, Bool.and_eq_true, Bool.not_eq_true'] at this
+      exact this.2
+  have hkne : (Py.strip k).isEmpty = false := by rw [hkstrip]; cases k <;> simp_all
+  unfold parseCookie
+  rw [if_neg (by simp [hcookie])]
+  by_cases hq : v.all noQuoteChar = true
+  · -- unquoted
+    have hdv : dumpValue v = .ok v := by simp [dumpValue, hq]
+    rw [hdv] at h
+    obtain rfl := Except.ok.inj h
+    have hf := fun c hc => noQuoteChar_facts c (List.all_eq_true.mp hq c hc)
+    have hm : matchOne (k ++ '=' :: v ++ [';']) = some (k, v, []) :=
+      matchOne_plain k v hkc (fun c hc => (hf c hc).2.2.2.1)
+        (fun c hc => ⟨(hf c (List.mem_of_mem_head? hc)).2.2.2.2, (hf c (List.mem_of_mem_head? hc)).2.2.1⟩)
+        (fun c hc => (hf c (List.mem_of_getLast? hc)).2.2.1)
+    have hs : (k ++ '=' :: v) ++ [';'] = k ++ '=' :: v ++ [';'] := by simp
+    simp only [hs]
+    rw [findAll_single _ k v hm (by cases k <;> simp)]
+    have hvstrip : Py.strip v = v :=
+      strip_id v (fun c hc => (hf c (List.mem_of_mem_head? hc)).2.1)
+        (fun c hc => (hf c (List.mem_of_getLast? hc)).2.1)
+    simp only [List.filterMap_cons, List.filterMap_nil, hkstrip, hvstrip]
+    rw [if_neg (by cases k <;> simp_all)]
+    rw [unquote_plain v (fun c hc => (hf c hc).2.2.2.2)]
+  · -- quoted
+    have hq' : v.all noQuoteChar = false := by simpa using hq
+    rw [dumpValue_quoted v hq'] at h
+    obtain rfl := Except.ok.inj h
+    have hns : ∀ n ∈ (utf8Enc v).map UInt8.toNat, n < 256 := by
+      intro n hn
+      simp only [List.mem_map] at hn
+      obtain ⟨b, _, rfl⟩ := hn
+      exact b.toNat_lt
+    have hm := matchOne_quoted k _ hkc hns
+    have hs : (k ++ '=' :: ('"' :: ((utf8Enc v).map UInt8.toNat).flatMap escChars ++ ['"'])) ++ [';'] =
+        k ++ '=' :: ('"' :: ((utf8Enc v).map UInt8.toNat).flatMap escChars ++ ['"']) ++ [';'] := by simp
+    simp only [hs]
+    rw [findAll_single _ k _ hm (by cases k <;> simp)]
+    have hvstrip : Py.strip ('"' :: ((utf8Enc v).map UInt8.toNat).flatMap escChars ++ ['"']) =
+        '"' :: ((utf8Enc v).map UInt8.toNat).flatMap escChars ++ ['"'] := by
+      apply strip_id
+      · intro c hc
+        simp only [List.cons_append, List.head?_cons, Option.some.injEq] at hc
+        subst hc; decide
+      · intro c hc
+        have : ('"' :: (((utf8Enc v).map UInt8.toNat).flatMap escChars ++ ['"'])).getLast? = some '"' := by
+          rw [← List.cons_append, List.getLast?_append]; simp
+        simp only [List.cons_append] at hc
+        rw [this] at hc
+        obtain rfl := Option.some.inj hc
+        decide
+    simp only [List.filterMap_cons, List.filterMap_nil, hkstrip, hvstrip]
+    rw [if_neg (by cases k <;> simp_all)]
+    rw [unquote_quoted, Py.decodeReplace_utf8Enc]
+
+/-- the hypotheses of `cookie_roundtrip` are satisfiable, for a value that needs every kind of escape -/
+example : ValidKey "sid".toList ∧ ∃ hv, dumpValue "a;b\"c\\ é\x00".toList = .ok hv :=
+  ⟨⟨by decide, by decide⟩, dump_value_total _⟩
+
+/-- The pair also survives in the middle of a jar header: other cookies before it do not disturb
+it (the scanner consumes whole `name=value;` units). Stated for one preceding pair. -/
+theorem cookie_roundtrip_concrete :
+    parseCookie "a=1; sid=\"x\\073 Secure\"; z=2".toList =
+      [("a".toList, "1".toList), ("sid".toList, "x; Secure".toList), ("z".toList, "2".toList)] := by
   decide +kernel
 
 end Wz.Props.C13
